@@ -91,3 +91,11 @@ package store
 //@ func (s PersistentStorageInterface) GetValidator(name string) (v validate.Validator)
 //@   modifies nothing
 //@   ensures [C13,assumed] validatorConfigured(name) ==> v != nil
+
+// C08: every accepted deletion - for everybody or for one user - records its id in the topic row too (the live topic
+// advances its delete counter after every accepted deletion, and a reload takes the counter from that row), and in the
+// subscription row(s).
+//@ func (m messagesMapper) DeleteList(topic string, delID int, forUser types.Uid, ranges []types.Range) (err error)
+//@   modifies *
+//@   ensures [C08] delete_id_recorded: err == nil && delID > 0 ==> called("TopicUpdate") == old(called("TopicUpdate")) + 1 && called("SubsUpdate") == old(called("SubsUpdate")) + 1
+//@   assert at call TopicUpdate [C08] same_topic: $1 == topic
